@@ -127,6 +127,23 @@ Theorem stir_model_is_the_source :
   stir_init_samples <> [] /\ stir_run_samples <> [].
 Proof. split; [vm_compute; reflexivity|]. split; [vm_compute; reflexivity|]. split; discriminate. Qed.
 
+(* ... and the successive stirs measured from both initial conditions, 60 each: the interval variable itself stays at
+   the maximum once it is reached (it is not only the armed delay that is capped) *)
+Theorem stir_sequences_are_the_source :
+  stir_seq 60 (stir_start 132) = stir_seq_first_start /\
+  stir_seq 60 (stir_start (random_bytes_wanted + 4)) = stir_seq_seeded /\
+  Forall (fun p => 1 <= fst p <= stir_max_secs /\ 1000 <= snd p <= stir_max_secs * 1000)
+         (stir_seq_first_start ++ stir_seq_seeded).
+Proof.
+  split; [vm_compute; reflexivity|]. split; [vm_compute; reflexivity|].
+  apply Forall_forall. intros p Hp.
+  assert (H : forallb (fun p => (1 <=? fst p) && (fst p <=? stir_max_secs) && (1000 <=? snd p)
+                                && (snd p <=? stir_max_secs * 1000))
+                      (stir_seq_first_start ++ stir_seq_seeded) = true) by (vm_compute; reflexivity).
+  rewrite forallb_forall in H. specialize (H p Hp).
+  rewrite !andb_true_iff, !Z.leb_le in H. lia.
+Qed.
+
 (* on timer.c: for every seeding state random_init makes exactly one set of the stir callback c, so the premise
    `inst c st = 1` of TimerProofs.periodic_forever holds from the start *)
 Theorem stir_first_instance (prog : nat -> list cop) (c : nat) (now : ts) nbytes j :
